@@ -33,6 +33,7 @@ Inductive instr :=
   | IArcClone (k i j : nat) | IArcDrop (k i : nat) | IArcCount (k i : nat)
   | IArcGetMut (k i : nat) | IArcTryUnwrap (k i : nat)
   | ITrackDrop (k : nat)
+  | ITlsWith (k : nat) | ILazyGet (k : nat)
   | IPanic
   | IExplore | IStopExploring | ISkipBranch.
 
